@@ -76,11 +76,26 @@ class SimSelector(selectors.BaseSelector):
 
 class SimLoop(asyncio.SelectorEventLoop):
     def __init__(self):
+        self.sim_transports = []
         super().__init__(selector=SimSelector())
         self._clock_resolution = 1e-6
 
     def time(self):
         return shim.W.time()
+
+    def _make_read_pipe_transport(self, pipe, protocol, waiter=None, extra=None):
+        t = super()._make_read_pipe_transport(pipe, protocol, waiter, extra)
+        self.sim_transports.append(t)
+        return t
+
+    def detach_all(self):
+        """No finaliser may run against a dead world: transports forget their pipe."""
+        for t in self.sim_transports:
+            try:
+                t._pipe = None
+                t._closing = True
+            except Exception:
+                pass
 
 
 _installed = False
